@@ -71,6 +71,11 @@ def norm_expr(e):
     if not isinstance(e, tuple) or not e:
         return e
     e = tuple(norm_expr(x) if isinstance(x, tuple) else x for x in e)
+    if e[0] == "bin" and e[1] in ("Add", "Sub", "Mul") and e[2][:1] == ("int",) and e[3][:1] == ("int",):
+        # literal arithmetic (`BITS_PER_BYTE - 1` once the named constant is replaced by its value)
+        v = e[2][1] + e[3][1] if e[1] == "Add" else e[2][1] * e[3][1] if e[1] == "Mul" else e[2][1] - e[3][1]
+        if 0 <= v < (1 << 64):
+            return ("int", v)
     if e[0] == "bin" and e[1] == "Sub" and is_call(e[3], "min") and len(e[3][3]) == 2 and e[2] in e[3][3]:
         other = e[3][3][1] if e[3][3][0] == e[2] else e[3][3][0]
         return ("call", "saturating_sub", None, (e[2], other), ())
@@ -98,6 +103,7 @@ def norm_expr(e):
     return e
 
 
+KEEP_CONSTS = ("BIT_UNIT", "BYTE_UNIT", "NIBBLE_UNIT", "BITS", "ZERO", "ONE", "MIN", "MAX")
 FOREIGN_BASE = 1000000
 
 
@@ -778,6 +784,18 @@ class Body:
             f = o["fn"]
             return ("fnref", f["name"], callee_qual(f))
         if "uneval_name" in o and o["uneval_name"]:
+            # a private named constant introduced for readability (`const BITS_PER_BYTE: usize = 8`) stands for its value:
+            # constants other than the unit / word constants the rules know by role are replaced by their (pure) definition
+            if o["uneval_name"] not in KEEP_CONSTS and not o.get("promoted") and getattr(self, "_const_depth", 0) < 4:
+                cb = self.crate.body(o.get("uneval", "")) if hasattr(self.crate, "by_path") else None
+                if cb is not None and cb is not self and (cb.kind.startswith("AssocConst") or cb.kind.startswith("Const")) and not cb.loops():
+                    self._const_depth = getattr(self, "_const_depth", 0) + 1
+                    try:
+                        r = cb.return_expr()
+                    finally:
+                        self._const_depth -= 1
+                    if not contains(r, lambda x: isinstance(x, tuple) and x[:1] in (("var",), ("unknown",), ("param",))):
+                        return r
             qual = short_ty(o.get("uneval", ""))
             ua = tuple(short_ty(re.sub(r"/#\d+", "", a)) for a in (o.get("uargs") or ()))
             return ("assoc", o["uneval_name"], qual, ua) if ua else ("assoc", o["uneval_name"], qual)
